@@ -356,10 +356,13 @@ func (w *World) callResolved(fr *Frame, st *State, c *ssa.CallCommon, ct *Contra
 		}
 		w.assumption("in " + w.topContract.Name + ", calls without a contract are assumed to leave the heap keys of its unknown_calls_preserve clause unchanged")
 	}
+	snap := w.capturedSnapshot(st)
+	preU := st.clone()
 	w.havocAll(st)
 	for k, v := range keep {
 		st.heap[k] = v
 	}
+	w.keepCaptured(st, preU, snap)
 	return w.freshResult(st, sig, "ret")
 }
 
@@ -515,14 +518,19 @@ func (w *World) inlineCall(fr *Frame, st *State, fn *ssa.Function, args []*Val, 
 // assume the postcondition.
 func (w *World) applyContract(fr *Frame, st *State, ct *Contract, names []string, args []*Val, sig *types.Signature, extra map[string]*Val, pkg *types.Package) *Val {
 	vars := map[string]*Val{}
+	var csFr *Frame
 	if ct.Kind == "callspec" {
-		// written inside the caller's contract: the caller's parameters are in scope
+		// written inside the caller's contract: the caller's parameters (and, in preconditions, its
+		// locals) are in scope
 		top := fr
 		for top.parent != nil {
 			top = top.parent
 		}
 		for k, v := range top.params {
 			vars[k] = v
+		}
+		if top.top {
+			csFr = top
 		}
 	}
 	for k, v := range extra {
@@ -537,7 +545,7 @@ func (w *World) applyContract(fr *Frame, st *State, ct *Contract, names []string
 	w.callOrd["call:"+label]++
 	ord := w.callOrd["call:"+label]
 	pre := st.clone()
-	env := &CEnv{w: w, pkg: pkg, vars: vars, cur: pre, old: pre, lets: ct.Lets, fr: nil}
+	env := &CEnv{w: w, pkg: pkg, vars: vars, cur: pre, old: pre, lets: ct.Lets, fr: csFr}
 	if fr.top || true {
 		for i, rq := range ct.Requires {
 			lbl := rq.Label
@@ -584,10 +592,12 @@ func (w *World) applyContract(fr *Frame, st *State, ct *Contract, names []string
 			}
 			w.assumption("in " + w.topContract.Name + ", calls without a stated frame are assumed to leave the heap keys of its unknown_calls_preserve clause unchanged")
 		}
+		snap := w.capturedSnapshot(st)
 		w.havocAll(st)
 		for k, v := range keep {
 			st.heap[k] = v
 		}
+		w.keepCaptured(st, pre, snap)
 	} else {
 		func() {
 			defer func() {
